@@ -143,6 +143,29 @@ def run(rep, drv):
 		if not same or bad:
 			rep.diff('s_s_discrete_exact', 'python %s model %s %s' % (py, mo, '; '.join(bad)), case, py=py, model=mo, oracle=bool(bad),
 					 theorem=THEOREM if same else None)
+	# "all Poisson means": large means first (exp(-mean) is subnormal from about 708 and 0.0 from 746), with S - s comparable to the mean
+	for lam, s, S, indep in ((40, 30, 75, True), (200, 150, 380, True), (735, 700, 1450, False), (760, -50, 1400, False), (800, 100, 900, True), (800, 60, 880, False)):
+		hi = int(poisson.ppf(1 - 1e-14, lam)) + 2
+		pm = [float(x) for x in poisson.pmf(range(hi + 1), lam)]
+		h, b, K = 1, 9, 25
+		case = {'lambda': lam, 'h': h, 'b': b, 'K': K, 's': s, 'S': S, 'corpus': 'large mean'}
+		rep.case('poisson-vs-pmf', case, nontrivial=True); rep.count('poisson:large-mean'); rep.tol_cmp += 1
+		try:
+			with warnings.catch_warnings():
+				warnings.simplefilter('ignore')
+				a = float(s_s_cost_discrete(s, S, h, b, K, True, demand_mean=lam))
+				c = float(s_s_cost_discrete(s, S, h, b, K, False, demand_hi=hi, demand_pmf=pm))
+			msg = []
+			if abs(a - c) > 1e-8 * max(1, abs(a)):
+				msg.append('Poisson entry point %r, custom-pmf entry point on the Poisson pmf %r' % (a, c))
+			if indep:
+				ref = stationary_cost(pm, h, b, K, s, S)
+				if abs(a - ref) > 1e-6 * max(1, abs(ref)):
+					msg.append('Poisson entry point %r, stationary cost of the inventory chain %r' % (a, ref))
+			if msg:
+				rep.diff('poisson-vs-pmf', '; '.join(msg), case, py=[a, c], oracle=True, theorem=THEOREM)
+		except Exception as e:
+			rep.diff('poisson-vs-pmf', 'raised %s' % err_enum(e), case, oracle=True, theorem=THEOREM)
 	# Poisson entry point = custom-pmf entry point on the Poisson pmf (truncated where the remaining mass is < 1e-13)
 	for k in range(120 if th else 25):
 		lam = rng.choice([0.5, 1, 2, 3.5, 5])
